@@ -36,7 +36,8 @@ package rlp
 //@   let canon = rlp_hdr_ok(inp, startIndex) && rlp_isstr(inp, startIndex) && !(sz == 1 && ds != startIndex && inp[ds] <= 0x7f) && sz <= len(inp) - ds
 //@   ensures[C46] iff(err == nil, canon)
 //@   ensures[C46] err == nil ==> len(str) == sz && bytesRead == ds + sz - startIndex
-//@   ensures[C46] err == nil ==> forall(k, 0, sz, str[k] == inp[ds + k])
+//@   ghost k int
+//@   ensures[C46] err == nil && 0 <= k && k < sz ==> str[k] == inp[ds + k]
 
 //@ func DecodeList
 //@   mode bv
